@@ -254,6 +254,10 @@ type YangType struct {
 
 // Equal returns true if y and t describe the same type.
 func (y *YangType) Equal(t *YangType) bool {
+	// Enumerations and bit sets are equal when they hold the same members.
+	sameMembers := cmp.Comparer(func(t, u EnumType) bool {
+		return cmp.Equal(t.unique, u.unique) && cmp.Equal(t.ToInt, u.ToInt) && cmp.Equal(t.ToString, u.ToString)
+	})
 	switch {
 	case y == t:
 		return true
@@ -276,13 +280,12 @@ func (y *YangType) Equal(t *YangType) bool {
 		len(y.Range) != len(t.Range),
 		!y.Range.Equal(t.Range),
 		!tsEqual(y.Type, t.Type),
-		!cmp.Equal(y.Enum, t.Enum, cmp.Comparer(func(t, u EnumType) bool {
-			return cmp.Equal(t.unique, u.unique) && cmp.Equal(t.ToInt, u.ToInt) && cmp.Equal(t.ToString, u.ToString)
-		})):
+		!cmp.Equal(y.Enum, t.Enum, sameMembers),
+		!cmp.Equal(y.Bit, t.Bit, sameMembers):
 
 		return false
 	}
-	// TODO(borman): Base, Bit
+	// TODO(borman): Base
 	return true
 }
 
